@@ -127,8 +127,44 @@ def shard_structured(arg):
   return n, nontrivial, bad, {}
 
 
+TOUCHED = {'on': False, 'paths': []}
+_hooked = []
+
+
+def _audit(event, args):
+  if not TOUCHED['on']:
+    return
+  if event in ('open', 'os.mkdir', 'os.remove', 'os.rmdir', 'os.chmod', 'os.chown', 'os.truncate', 'os.utime'):
+    if args and isinstance(args[0], (str, bytes)):
+      TOUCHED['paths'].append((event, args[0]))
+  elif event in ('os.rename', 'os.link', 'os.symlink'):
+    for a in args[:2]:
+      if isinstance(a, (str, bytes)):
+        TOUCHED['paths'].append((event, a))
+
+
+def install_monitors():
+  """Every path the backend hands to the OS (open/mkdir/rename/... via audit events, exists() via a wrapper
+  around the name carbon.database imported) is recorded while TOUCHED['on']."""
+  import sys
+  if not _hooked:
+    sys.addaudithook(_audit)
+    _hooked.append(1)
+  import carbon.database as dbm
+  if not getattr(dbm.exists, '_verif', False):
+    real = dbm.exists
+
+    def exists(path):
+      if TOUCHED['on']:
+        TOUCHED['paths'].append(('exists', path))
+      return real(path)
+    exists._verif = True
+    dbm.exists = exists
+
+
 def create_all(arg):
-  """Really create every string up to `maxlen` through the plugin; nothing may appear outside data/."""
+  """Really create every string up to `maxlen` through the plugin; nothing may appear outside data/, and no
+  path outside it may even be probed, opened, created or renamed."""
   kind, hashed, maxlen = arg
   root = os.path.join(env.scratch(), 'c14-%s-%s' % (kind, hashed))
   outer = os.path.join(root, 'outer')
@@ -138,11 +174,15 @@ def create_all(arg):
   sentinel = os.path.join(root, 'sentinel')
   open(sentinel, 'w').close()
   db = [d for k, h, d in make_dbs(data_dir) if k == kind and h == hashed][0]
+  install_monitors()
   created = errors = 0
   bad = []
-  for ln in range(0, maxlen + 1):
-    for tup in itertools.product(ALPHABET, repeat=ln):
-      name = ''.join(tup)
+  real_data0 = os.path.realpath(data_dir)
+  names = [''.join(tup) for ln in range(0, maxlen + 1) for tup in itertools.product(ALPHABET, repeat=ln)]
+  names += [pre + '/'.join(segs) for pre in ('/a;x=', '/;', '/a.b;t=v', 'a;x=/') for k in (1, 2) for segs in itertools.product(['..', 'a', 'tmp'], repeat=k)]
+  for name in names:
+      del TOUCHED['paths'][:]
+      TOUCHED['on'] = True
       try:
         if not db.exists(name):
           db.create(name, [(60, 10)], 0.5, 'average')
@@ -150,6 +190,16 @@ def create_all(arg):
         created += 1
       except (OSError, Exception):   # noqa - file/dir clashes inside data/ are fine, escapes are caught by the walk
         errors += 1
+      finally:
+        TOUCHED['on'] = False
+      for event, pth in TOUCHED['paths']:
+        if isinstance(pth, bytes):
+          pth = pth.decode('utf-8', 'replace')
+        rp = os.path.realpath(pth if os.path.isabs(pth) else os.path.join(os.getcwd(), pth))
+        if rp != real_data0 and not rp.startswith(real_data0 + os.sep):
+          if len(bad) < 3:
+            bad.append(('touches-outside:' + kind, '%s backend, metric %r: %s(%r) is outside the data directory %r' % (
+              kind, name, event, pth, real_data0), {'kind': kind, 'hashed': hashed, 'name': name}))
   real_data = os.path.realpath(data_dir)
   for dirpath, dirnames, filenames in os.walk(root):
     for f in filenames + dirnames:
